@@ -859,6 +859,11 @@ class Prover:
                 if v is not None:
                     some.add((inner, v))
                     self._callee_success_facts(inner, v, facts)
+                    y0, ok0 = inner, (v == 1)
+                    if y0[0] == "call" and isinstance(y0[1], str) and y0[1].endswith("::branch") and y0[2]:
+                        y0, ok0 = canon(y0[2][0]), (v == 0)
+                    if ok0:
+                        facts.extend(self._std_success_facts(y0))
                 continue
             is_bool = len(edges) == 2 and explicit == {0}
             if is_bool:
@@ -881,6 +886,33 @@ class Prover:
                     facts.append(({x: -c for x, c in l[0].items()}, v - l[1]))
         self._facts[bb] = (facts, some)
         return self._facts[bb]
+
+    def _std_success_facts(self, y):
+        """`y` is an Option known to be Some: what std guarantees about it.  slice.get(i) / get(a..b) succeeded => the index is in
+        bounds (through copied()/cloned()/map(..) wrappers, which keep Some-ness)"""
+        out = []
+        hops = 0
+        while y[0] == "call" and isinstance(y[1], str) and y[1].rsplit("::", 1)[-1] in ("copied", "cloned", "map", "as_ref", "as_deref", "ok_or", "ok_or_else") and y[2] and hops < 4:
+            y = canon(y[2][0])
+            hops += 1
+        if y[0] == "call" and isinstance(y[1], str) and y[1].rsplit("::", 1)[-1] in ("get", "get_mut") and len(y[2]) == 2 and \
+                ("[T]" in y[1] or "Vec" in y[1] or "slice" in y[1]):
+            ln = self.lin(("len", canon(y[2][0])))
+            ix = canon(y[2][1])
+            se = _range_bounds(ix)
+            if se is None:
+                out.append(_sub(self.lin(ix), ln, 1))            # i + 1 <= len
+            else:
+                st, en, kind = se
+                if kind in ("range", "to") and en is not None:
+                    out.append(_sub(self.lin(en), ln))
+                if kind == "range" and st is not None and en is not None:
+                    out.append(_sub(self.lin(st), self.lin(en)))
+                if kind == "from" and st is not None:
+                    out.append(_sub(self.lin(st), ln))
+                if kind in ("inclusive", "toinclusive") and en is not None:
+                    out.append(_sub(self.lin(en), ln, 1))
+        return out
 
     def _callee_success_facts(self, inner, v, facts):
         """`inner` (the scrutinee of a variant test) is the result of a call to a pure workspace function and this edge is the one
@@ -910,6 +942,13 @@ class Prover:
                     fs = {(frozenset(f[0].items()), f[1]) for f in fp.facts_at(sb)[0]}
                     common = fs if common is None else common & fs
                 summ = [(dict(a), c) for a, c in (common or ())]
+            elif not sites and len(y[2]) == fb.arg_count:
+                # the function returns what a std call returned (`self.buffer.get(self.offset).copied()`): its success is that call's
+                rets = [(bb2, tm2) for bb2, tm2 in fb.calls() if tuple(tm2["dest"]) == (0,)]
+                direct = [st2 for _, _, st2 in fb.stmts() if st2["p"] == (0,)]
+                if len(rets) == 1 and not direct:
+                    t0 = canon(fp.T.call_term(rets[0][1], rets[0][0]))
+                    summ = [(dict(a), c) for a, c in fp._std_success_facts(t0)]
             _succ_memo[key] = summ
         mapping = {i + 1: a for i, a in enumerate(y[2])}
         for atoms, c in summ:
@@ -997,6 +1036,13 @@ class Prover:
                         out.append(_sub(ls, me))          # s - i <= 0
                         out.append(_sub(me, le, 1))       # i - e + 1 <= 0
                         break
+            if atom[0] == "call" and isinstance(atom[1], str) and atom[1].rsplit("::", 1)[-1] in ("min", "max") and len(atom[2]) == 2 and \
+                    ("cmp" in atom[1] or "Ord" in atom[1]):
+                # min(a, b) <= a, min(a, b) <= b;  max(a, b) >= a, max(a, b) >= b
+                me = ({atom: 1}, 0)
+                for x in atom[2]:
+                    lx = self.lin(x)
+                    out.append(_sub(me, lx) if atom[1].endswith("min") else _sub(lx, me))
             for a in subterms(atom) if atom[0] != "len" else [atom] + list(subterms(atom[1])):
                 for adt, small, big in FIELD_INVARIANTS:
                     if a[0] == "field" and a[2] == small:
@@ -1722,7 +1768,9 @@ def min_len_out(P, body, cont, depth=0, arg_lens=()):
     return res
 _PURE_STD = re.compile(r"( as std::ops::(Add|Sub|Mul|Div|Rem|Shl|Shr|BitAnd|BitOr|BitXor|Not|Neg)[<>])|(^core::num::)|( as std::cmp::Partial(Ord|Eq))|"
                        r"(^std::time::Duration::(as_|from_|new|subsec))|(::len$)|( as std::clone::Clone>::clone$)|(^std::cmp::(min|max)$)|"
-                       r"( as std::convert::(From|Into)<)")
+                       r"( as std::convert::(From|Into)<)|(<impl \[T\]>::(get|first|last|is_empty|iter|as_ptr|contains|starts_with|ends_with)$)|"
+                       r"(^std::option::Option::<.*>::(copied|cloned|is_some|is_none|as_ref|as_deref|unwrap_or|ok_or)$)|(Vec::<T, A>::(as_slice|is_empty|capacity)$)|"
+                       r"( as std::ops::Deref>::deref$)")
 
 
 def is_pure_fn(P, fid, depth=0):
@@ -1801,9 +1849,11 @@ def shape(t, depth=0):
     if k == "param":
         return "arg%d" % t[1]
     if k == "const":
-        if len(t) > 2 and t[2] != "bool":
-            return str(t[2]).split("::")[-1]
         v = t[1]
+        if len(t) > 2 and t[2] != "bool" and not isinstance(v, int):
+            return str(t[2]).split("::")[-1]
+        if isinstance(v, int) and not isinstance(v, bool):
+            return repr(v)            # a named constant is its value: introducing or renaming a `const` changes nothing
         if isinstance(v, tuple):
             return str(v[-1]).split("::")[-1]
         if isinstance(v, (bytes, str)) and len(v) > 24:
@@ -1811,6 +1861,12 @@ def shape(t, depth=0):
         return repr(v)
     if k == "call":
         n = t[1] if isinstance(t[1], str) else "(ptr)"
+        if n.startswith("rusqlite::Connection::") and len(t[2]) >= 2:
+            # a query is identified by its statement; how the bound values are spelled is not part of the construct's identity
+            return "%s(%s)" % ("::".join(n.split("::")[-2:]), shape(t[2][1], depth + 1))
+        last = n.rsplit("::", 1)[-1]
+        if last in ("min", "max") and len(t[2]) == 2 and ("cmp::" in n or "Ord" in n):
+            n = "cmp::" + last           # std::cmp::min(a, b), Ord::min(a, b) and a.min(b) are one operation
         n = re.sub(r"<[^<>]*>", "", n)
         n = re.sub(r"<[^<>]*>", "", n)
         n = "::".join(n.split("::")[-2:])
